@@ -298,7 +298,7 @@ pub fn property() -> Property {
                 name: "histories",
                 plan: |t| match t {
                     Tier::Quick => Plan::Random { cases: 200_000, max_len: 400 },
-                    Tier::Thorough => Plan::Random { cases: 1_000_000, max_len: 500 },
+                    Tier::Thorough => Plan::Random { cases: 10_000_000, max_len: 500 },
                 },
                 case: case_q,
                 min_classes: &[("pop-on-empty-stack", 2000), ("pop-copy-of-undefined-name", 2000), ("push-depth-2", 2000)],
@@ -307,7 +307,7 @@ pub fn property() -> Property {
                 name: "long-histories",
                 plan: |t| match t {
                     Tier::Quick => Plan::Skip,
-                    Tier::Thorough => Plan::Random { cases: 150_000, max_len: 1200 },
+                    Tier::Thorough => Plan::Random { cases: 1_500_000, max_len: 1200 },
                 },
                 case: case_t,
                 min_classes: &[],
